@@ -1,7 +1,7 @@
 """C02 -- parse fidelity: what was sent is what is reported (well-formed messages).
 Theorems: coq/Props/Properties_C02.v (request line, status line, one header line, a header block with
-repetitions, case-insensitive lookup, the folding join, Host -> hostname/port; whole exchange: statement +
-refutations). Partial: cookies, credentials (authorization), query and body parameters are switched off in the
+repetitions, case-insensitive lookup, the folding join, Host -> hostname/port; REQ_HEADERS over a block in one chunk;
+whole exchange: one body-less request in one chunk PROVED, full statement + refutations). Partial: cookies, credentials (authorization), query and body parameters are switched off in the
 modelled configuration (parameters: C15 / C14; URI components: C13 / C12).
 Tie: S-connp correspondence (library built from the working tree under ASan+UBSan vs the extracted model) on
 exchanges produced by a ground-truth grammar (the grammar of coq/Spec/SWire.v), delivered whole / with random
@@ -644,8 +644,9 @@ def check(ctx):
                                 ["partial: cookies, credentials (authorization), query and body parameters are outside this model (switched off in "
                                  "the modelled configuration; parameters: C15 / C14; URI components: C13 / C12)",
                                  "layer theorems (request line, status line, header line, header block, lookup, folding join, Host) are total on the "
-                                 "grammar; the whole-exchange statement is stated (C02_exchange_fidelity_full), refuted as it stands by K1 and tied by "
-                                 "the oracle runs",
+                                 "grammar; C02_exchange_fidelity_partial is proved for ONE body-less request delivered in ONE chunk (request direction, "
+                                 "callbacks answering HTP_OK); the full statement (n pipelined requests, any segmentation) is stated, refuted as it "
+                                 "stands by K1, and tied by the oracle runs only",
                                  "grammar premises: extension methods only as the first request of a chunk (K1); no ':' in a response continuation line "
                                  "(K2); continuation lines carry text (IIS 5.1 personality); CL / close-delimited response bodies do not start with CR (C03/F1); "
                                  "at most 64 occurrences beyond the second of a name (cap)"])
